@@ -1145,12 +1145,14 @@ fn random_cfg(rng: &mut Rng) -> Cfg {
     let semi = enzyme == 5;
     // a static and a variable modification may target the same terminus (`^` static with `^` / `[` variable):
     // the variable one, applied first, blocks the static one -- the two never add up (seeded C01-H)
-    let statics = match rng.below(5) {
+    let statics = match rng.below(6) {
         0 => vec![],
         1 => vec![("C".to_string(), 57.0215f32)],
         2 => vec![("C".to_string(), 57.0215f32), ("K".to_string(), 229.1629f32)],
         3 => vec![("^".to_string(), 229.1629f32), ("K".to_string(), 229.1629f32)],
-        _ => vec![("C".to_string(), 57.0215f32), ("^".to_string(), 229.1629f32), ("$".to_string(), 14.0157f32)],
+        4 => vec![("C".to_string(), 57.0215f32), ("^".to_string(), 229.1629f32), ("$".to_string(), 14.0157f32)],
+        // protein-terminus statics: only peptides at the protein C- / N-terminus carry them (seeded C01-N)
+        _ => vec![("]".to_string(), 14.0157f32), ("[".to_string(), 28.0313f32), ("C".to_string(), 57.0215f32)],
     };
     let vars = match rng.below(5) {
         0 => vec![],
